@@ -272,6 +272,17 @@ pub mod prelude {
         }
     }
 
+    /// `par_bridge`: rayon documents that the order of the original iterator is NOT preserved —
+    /// the bridged items arrive in an arbitrary order (a permutation picked by the decision vector).
+    pub trait ParallelBridge: Sized + Iterator {
+        fn par_bridge(self) -> Par<Self::Item> {
+            let mut items: Vec<Option<Self::Item>> = self.map(Some).collect();
+            let order = perm(items.len());
+            Par(order.into_iter().map(|i| items[i].take().unwrap()).collect())
+        }
+    }
+    impl<I: Iterator> ParallelBridge for I {}
+
     pub trait IntoParallelRefIterator<'a> {
         type Item;
         fn par_iter(&'a self) -> Par<Self::Item>;
